@@ -146,7 +146,8 @@ theorem modify_restore_emptydict_counterexample :
 
 /-- **restore_clears_original.**  After a successful `RestoreAttribute(p)` the attribute `p` is no longer
     recorded as modified, and for a nested path nothing at or below `p` is (configobject.cpp:303-304,
-    311).  (For a top-level attribute only the exact entry goes: entries below it stay.) -/
+    311).  (For a top-level attribute only the exact entry goes: entries below it stay; restoring an
+    unmodified top-level attribute is a no-op, configobject.cpp:309-310.) -/
 theorem restore_clears_original {N : Type} (o o' : Obj N) (p : Path) (h : restore o p = .ok o') (g : Orig N)
     (hg : o.original = some g) :
     ∃ g', o'.original = some g' ∧ (∀ e ∈ g', e.1 ≠ p) ∧ (1 < p.length → ∀ e ∈ g', isPrefix p e.1 = false) := by
@@ -160,13 +161,19 @@ theorem restore_clears_original {N : Type} (o o' : Obj N) (p : Path) (h : restor
       simp only [hf, hg] at h
       cases rest with
       | nil =>
-        simp at h
-        subst h
-        refine ⟨_, rfl, ?_, ?_⟩
-        · intro e he
-          simp at he
-          exact he.2
-        · intro hl; simp at hl
+        simp only at h
+        split at h
+        · rename_i hnone
+          simp at h
+          subst h
+          exact ⟨g, hg, ne_of_oGet_none hnone, by intro hl; simp at hl⟩
+        · simp at h
+          subst h
+          refine ⟨_, rfl, ?_, ?_⟩
+          · intro e he
+            simp at he
+            exact he.2
+          · intro hl; simp at hl
       | cons k ks =>
         simp only at h
         split at h
@@ -188,6 +195,11 @@ example : restore { sampleObj with original := some [([vars, ['a']], .str ['t'])
     .ok { fields := [(['n', 'o', 't', 'e', 's'], .str ['x']),
                      (vars, .obj [(['a'], .obj [(['z'], .num 0)]), (['d'], .obj [(['k'], .num 1)]), (['e'], .obj [])])],
           original := some [] } := by decide
+
+-- regression for F-C14f (fixed in /repo by fff98fc): restoring a top-level attribute that is not modified, on an
+-- object that has other modifications, changes nothing (before the fix `vars` became Empty)
+example : restore { sampleObj with original := some [([['n', 'o', 't', 'e', 's']], .str ['y'])] } [vars] =
+    .ok { sampleObj with original := some [([['n', 'o', 't', 'e', 's']], .str ['y'])] } := by decide
 
 /-- **modify_restore_meets_spec_partial.**  Under the hypotheses of `modify_restore_partial` the model's
     two-step trace `modify p v; restore p` from a never-modified object satisfies the executable
@@ -297,6 +309,22 @@ theorem complete_write_reads_new (s0 : FS) (path tmp : FName) (ino : Ino) (mode 
     (hino : ∀ i, dirLookup s0.dir path = some i → i ≠ ino) :
     readNow (run (atomicWrite path tmp ino mode chunks) s0) path = some chunks.flatten :=
   complete_write_aux s0 path tmp ino mode chunks hq htmp hino
+
+/-- **crash_leaves_only_tmp.**  Whatever prefix of the sequence ran and whichever directory state the
+    crash leaves (the current one or any earlier one), the only name that was not there before — apart
+    from the target itself once renamed — is the temp file `path.tmp.XXXXXX`: the loader, which opens
+    `path` only, ignores it, and `DumpObjects`/`DumpModifiedAttributes` glob and remove it before the next
+    write (configobject.cpp:467, icingaapplication.cpp:172; checked by the harness's `L` lines). -/
+theorem crash_leaves_only_tmp (s0 : FS) (path tmp : FName) (ino : Ino) (mode : Nat) (chunks : List Bytes)
+    (hq : s0.past = [])
+    (pre : List Sys) (hpre : pre <+: atomicWrite path tmp ino mode chunks)
+    (d : Dir) (hd : d = (run pre s0).dir ∨ d ∈ (run pre s0).past) (n : FName) (hn : dirLookup d n ≠ none) :
+    n = tmp ∨ n = path ∨ dirLookup s0.dir n ≠ none :=
+  crash_leaves_only_tmp_aux s0 path tmp ino mode chunks hq pre hpre d hd n hn
+
+-- after a kill inside the second write the directory holds the old file and the temp file, nothing else
+example : (run ((atomicWrite ['s'] ['t'] 2 384 [[110], [101], [119]]).take 4) { dir := [(['s'], 1)], past := [], data := [(1, [111])], dirty := [] }).dir
+    = [(['t'], 2), (['s'], 1)] := by decide
 
 /-- The logged form of a call: everything but the final rename names the temp file. -/
 def evOf : Sys → SysEv
